@@ -165,6 +165,12 @@ Theorem set_children_styles_leaves_caller_dict : set_children_copies_arg = true.
 Proof. exact set_children_copy_ok. Qed.
 Print Assumptions set_children_styles_leaves_caller_dict.
 
+(* the temporary resolved style that show() puts on an object is removed in a `finally`: a show() that fails
+   part-way cannot leak its keywords into the object's own style *)
+Theorem failed_show_cannot_leak : temp_style_restored_in_finally = true.
+Proof. exact temp_style_ok. Qed.
+Print Assumptions failed_show_cannot_leak.
+
 (* the display recursion hands the show() style arguments on to collection children *)
 Theorem show_kwargs_reach_collection_children : recursion_forwards_style_kwargs = true.
 Proof. exact recursion_ok. Qed.
